@@ -12,7 +12,7 @@ LEVEL = "exploration"
 RULE = (
     "fields {random, sparse, many ties, many zeros, solver footprints clipped at 0, tiny/huge magnitudes} of 2..40 x 2..40 cells; "
     "base g in {the five built-in base functions with towers inside/outside the grid and any wind, random tie-free, random with ties}; "
-    "p in (0,1] incl. 1.0 and 1e-9; 2-D and 3-D inputs, 1-D and 2-D coordinates.  non-trivial = field has >=2 distinct positive "
+    "p in (0,1] incl. 1.0 and 1e-9; 2-D and 3-D inputs, 1-D and 2-D coordinates, C / Fortran / transposed / strided memory layouts.  non-trivial = field has >=2 distinct positive "
     "values; distinct = distinct (field kind, base kind, shape, seed index)"
 )
 ASSUMPTIONS = [
@@ -204,6 +204,26 @@ def run_case(case):
         lop, hip = lo.ravel()[perm], hi.ravel()[perm]
         if max((lop - rp.ravel()).max(), (rp.ravel() - hip).max()) > tol:
             viol.append({"what": "permuted_value_outside_definition", "base": gkind})
+
+    # memory layout must not matter: transposing both fields is a common permutation of the cells
+    layouts = {
+        "transposed_views": (f.T, g.T, lambda x: x.T),
+        "fortran_order": (np.asfortranarray(f), np.asfortranarray(g), lambda x: x),
+        "f_fortran_g_c": (np.asfortranarray(f), np.ascontiguousarray(g), lambda x: x),
+        "strided_views": (np.repeat(f, 2, axis=1)[:, ::2], np.repeat(g, 2, axis=0)[::2], lambda x: x),
+    }
+    for lname, (fl, gl, back) in layouts.items():
+        rl = back(np.asarray(bldfm.get_source_area(fl, gl)))
+        counters["get_source_area_calls"] += 1
+        counters["layout_checks"] = counters.get("layout_checks", 0) + 1
+        if rl.shape != r.shape:
+            viol.append({"what": "result_depends_on_memory_layout", "layout": lname, "shape": rl.shape})
+        elif tie_free:
+            if not np.array_equal(rl, r):
+                viol.append({"what": "result_depends_on_memory_layout", "layout": lname, "base": gkind, "shape": f.shape,
+                             "maxdiff": float(np.abs(rl - r).max())})
+        elif max((lo - rl).max(), (rl - hi).max()) > tol:
+            viol.append({"what": "result_depends_on_memory_layout", "layout": lname, "base": gkind, "shape": f.shape, "note": "outside the definition"})
 
     # ------------------------------------------------------------ percentile contour
     form = str(rng.choice(["2d_grid2d", "2d_grid1d", "3d_grid3d", "3d_grid2d"]))
